@@ -245,7 +245,7 @@ def parse_statement(lexer, toplevel=False):
                 check_redefine_keyword(token)
                 check_expected_identifier(token)
                 lexer.match("do", "keyword")
-                result = NodeClass(token.value, pos)
+                result = NodeClass(token.value, pos, comment)
                 while not lexer.peekn(1, "end", "keyword"):
                     if not lexer.peekn(1, "def", "keyword"):
                         lexer.match("def", "keyword")
@@ -259,7 +259,7 @@ def parse_statement(lexer, toplevel=False):
                                 NodeDef(
                                     token.value,
                                     parse_fn(lexer, pos),
-                                    comment,
+                                    "",
                                     pos
                                 )
                             )
@@ -269,7 +269,7 @@ def parse_statement(lexer, toplevel=False):
                                 NodeDef(
                                     token.value,
                                     parse_expression(lexer),
-                                    comment,
+                                    "",
                                     pos
                                 )
                             )
